@@ -63,3 +63,13 @@
   (concl (= (prod a offa (+ n m)) (* (prod a offa n) (prod b offb m))))
   (pattern (prod a offa n) (prod b offb m))
   (trigger prod))
+
+; a strictly increasing integer sequence grows at least by one per step
+(lemma strictly_increasing_bounds
+  (vars (a (Array Int Int)) (off Int) (n Int))
+  (induct n)
+  (monotone)
+  (hyp (forall ((k Int)) (=> (and (<= 0 k) (< k (- n 1))) (< (select a (+ off k)) (select a (+ off k 1))))))
+  (concl (forall ((m Int)) (forall ((j Int)) (=> (and (<= 0 j) (<= j m) (< m n)) (>= (select a (+ off m)) (+ (select a (+ off j)) (- m j)))))))
+  (pattern (seqmark a off n))
+  (trigger seqmark))
